@@ -178,6 +178,7 @@ def main():
     ap.add_argument('--max', type=int, default=0)
     ap.add_argument('--stride', type=int, default=1, help='take every n-th mutant')
     ap.add_argument('--out', default=HERE + '/tools/mutation_results.json')
+    ap.add_argument('--rerun', default=None, help='results file of an earlier run: only its SURVIVED / killed-harness-error mutants are run again')
     a = ap.parse_args()
     spec = json.load(open(a.spec))
     jobs = []
@@ -192,6 +193,9 @@ def main():
                 continue
             for i, (desc, code) in enumerate(ms):
                 jobs.append((relpath, q, i, desc, code, killers, a.scale))
+    if a.rerun:
+        keep = {(r[0], r[1], r[2]) for r in json.load(open(a.rerun)) if r[4] in ('SURVIVED', 'killed-harness-error')}
+        jobs = [j for j in jobs if (j[0], j[1], j[2]) in keep]
     jobs = jobs[::a.stride]
     if a.max:
         jobs = jobs[:a.max]
